@@ -60,6 +60,21 @@ OPAQUE = [
 ]
 
 
+# BEGIN P10: the abstract finite field (`Self` opaque, operations as parameters)
+FP = [("f_zero", "digest"), ("f_one", "digest"), ("f_mul", "hfun"), ("f_is_zero", "pfun"), ("f_inverse", "ufun"),
+      ("f_inverse_ok", "pfun"), ("d0", "digest")]
+FIELD = [
+    ("ok", "fn f(input: Vec<Self>) -> Vec<Self> { let n = input.len(); if n == 0 { return Vec::<Self>::new(); } let mut s: Vec<Self> = vec![Self::zero(); n]; let mut acc = Self::one(); for i in 0..n { assert!(!input[i].is_zero(), \"zero\"); s[i] = acc; acc *= input[i]; } acc = acc.inverse(); s[0] = acc * s[0]; s }", "(f_inverse_ok acc)"),
+    ("refuse", "fn f(input: Vec<Self>) -> Self { input[0] + input[1] }", None),                       # `+` is not in the record
+    ("refuse", "fn f(input: Vec<Self>) -> bool { input[0] == input[1] }", None),                      # no equality on the abstract field
+    ("refuse", "fn f(input: Vec<Self>) -> Vec<Self> { Vec::<Self>::with_capacity(3) }", None),        # another turbofish path
+    ("refuse", "fn f(input: Vec<Self>) -> Self { input[0].square() }", None),                         # a method that is not in the record
+    ("refuse", "fn f(input: Vec<Self>, f_mul: u64) -> Self { input[0] }", None),                      # clashes with an added parameter
+    ("refuse", "fn f(input: Vec<Self>) -> Self { let k = 3; input[0] * k }", None),                   # field element times integer
+]
+# END P10
+
+
 def setup(opaque):
     B.reset_ctx()
     B.CTX["ops"] = {"+": "bfe_add", "*": "bfe_mul"}
@@ -88,11 +103,15 @@ def main():
     L.lean_ty = T.make_lean_ty(saved)
     T.install_patches()
     try:
-        for opaque, cases in ((False, SPONGE), (True, OPAQUE)):
+        for opaque, cases in ((False, SPONGE), (True, OPAQUE), ("field", FIELD)):      # P10: FIELD
             for exp, src, marker in cases:
-                tfns, pfns = setup(opaque)
+                tfns, pfns = setup(bool(opaque))
+                T.X["field"] = opaque == "field"
                 try:
-                    text = T.translate_fn4(src, "f", "f", "test", {}, tfns, pfns, L.DEFAULT_FUEL,
+                    if opaque == "field":
+                        text = T.translate_fn4(src, "f", "f", "test", {}, tfns, pfns, L.DEFAULT_FUEL, self_ty="digest", pre_params=FP)[0]
+                    else:
+                        text = T.translate_fn4(src, "f", "f", "test", {}, tfns, pfns, L.DEFAULT_FUEL,
                                            self_ty=None if opaque else ST, pre_params=HD + [("digest_default", "digest")] if opaque else ())[0]
                     got = "ok"
                 except Unsupported as ex:
@@ -105,6 +124,7 @@ def main():
                     print(f"FAIL expected {exp} got {got}: {src[:90]}\n      {text[:300]}")
     finally:
         L.lean_ty = saved
+        T.X["field"] = False
         T.remove_patches()
     print("rs2lean_bt4 self-test:", "ok" if not bad else f"{bad} failures")
     return 1 if bad else 0
